@@ -8,7 +8,7 @@ HERE = os.path.dirname(os.path.abspath(__file__))
 sys.path.insert(0, HERE)
 import run_scenario
 VERIF = os.path.dirname(HERE)
-WORK = os.path.join(VERIF, "build", "digcases")
+WORK = os.path.join(VERIF, "build", "digcases", str(os.getpid()))  # per process: concurrent checks must not share files
 
 
 def xml_escape(s):
@@ -256,6 +256,8 @@ def run(thorough=False, seed=0):
         for doc, got in zip(cdocs, outs):
             if "panic" in got:
                 fails.append((None, doc, [f"{prof}: corrupted document: panic: {got['panic']}"]))
+    import shutil
+    shutil.rmtree(WORK, ignore_errors=True)
     # one failure per distinct message is enough
     seen, uniq = set(), []
     for f in fails:
